@@ -69,7 +69,7 @@ pub fn run_input(input: &Value) -> Case {
         g_config(&input["config"], &wire), g_url(&url), g_bool(absolute), input["cup"]["latest"].as_u64().unwrap(),
         g_params(&params), g_list(&gops), gs[0], gs[1]);
     Case { gallina, json: out, class: format!("{}{}", if js[0].is_null() { "err-" } else { "ok-" }, url.split('/').take(3).collect::<Vec<_>>().join("/")),
-           nontrivial: !js[0].is_null(), key: serde_json::to_string(input).unwrap() }
+           nontrivial: !js[0].is_null(), key: serde_json::to_string(input).unwrap(), features: vec![] }
 }
 
 pub fn generate(rng: &mut Rng, n: usize, _thorough: bool) -> Vec<Value> {
